@@ -50,7 +50,14 @@ Proof. exact load_identity_mismatch. Qed.
 Theorem C03_sections_chain : forall f flen o S, sections f flen o S -> chain f flen o S.
 Proof. exact sections_chain. Qed.
 
+(* totality of the loader logic for ALL abstract files (no well-formedness hypothesis): the /Prev walk never
+   exhausts the model's fuel, the object passes are structural, no modelled panic site exists (audit in
+   Model/Loader.v): the answer is always Rejected or Loaded *)
+Theorem C03_load_total : forall p, load p <> OutFuel /\ (load p = Rejected \/ exists c r, load p = Loaded c r).
+Proof. exact load_total. Qed.
+
 Print Assumptions C03_load.
+Print Assumptions C03_load_total.
 Print Assumptions C03_load_nonvacuous.
 Print Assumptions C03_load_refuted_length_in_objstm.
 Print Assumptions C03_identity_mismatch.
